@@ -269,7 +269,7 @@ pub fn run(ctx: &Ctx) -> Outcome {
         }
     }
     // fixed regression strings (IANA footers and the crate's documented examples)
-    let fixed = ["UTC0", "EST5EDT,M3.2.0,M11.1.0", "CET-1CEST,M3.5.0,M10.5.0/3", "<-03>3<-02>,M3.5.0/-2,M10.5.0/-1", "IST-2IDT,M3.4.4/26,M10.5.0", "EST5EDT,0/0,J365/25", "HST10", "<+0330>-3:30", "AAA-0:30", "NZST-12NZDT,M9.5.0,M4.1.0/3", "WGT3WGST,M3.5.0/-2,M10.5.0/-1", "AAA0BBB", "AAA0BBB1", "AAA0BBB,J1", "AAA", "AAA24:59:59", "AAA25", " AAA0 ", "AAA0BBB,M259.1.0,J300", "AAA0BBB,J65537,J300", "AAA0BBB,65536,J300", "AAA0BBB,M3.257.0,J300", "AAA0BBB,M3.1.256,J300", "EST5\u{b}", "\u{a0}EST5", "AAA0BBB,J1/24,J300/24:00:00", "AAA256", "AAA0:256", "<EST\0>5", "<\0EST>5", "AAA0BBB,JM3.2.0,M11.1.0", "AAA0BBB,M3.2.0/600000,M11.1.0", "AAA0BBB,M3.2.0/268435456,M11.1.0", "AAA0BBB,M3.2.0/268435458,M11.1.0/-1", "AAA0000000003", "AAA3BBB,J0000000060,M0000000010.1.0", "AAA0BBB,M3.2.0/596523:59:59,M11.1.0", "AAA0BBB,M3.2.0/-2147483647,M11.1.0", "AAA0BBB-2,J3/-72,J364/120", "EST+5EDT,M3.2.0/2:00:00,M11.1.0/2:00:00x"];
+    let fixed = ["UTC0", "EST5EDT,M3.2.0,M11.1.0", "CET-1CEST,M3.5.0,M10.5.0/3", "<-03>3<-02>,M3.5.0/-2,M10.5.0/-1", "IST-2IDT,M3.4.4/26,M10.5.0", "EST5EDT,0/0,J365/25", "HST10", "<+0330>-3:30", "AAA-0:30", "NZST-12NZDT,M9.5.0,M4.1.0/3", "WGT3WGST,M3.5.0/-2,M10.5.0/-1", "AAA0BBB", "AAA0BBB1", "AAA0BBB,J1", "AAA", "AAA24:59:59", "AAA25", " AAA0 ", "AAA0BBB,M259.1.0,J300", "AAA0BBB,J65537,J300", "AAA0BBB,65536,J300", "AAA0BBB,M3.257.0,J300", "AAA0BBB,M3.1.256,J300", "EST5\u{b}", "\u{a0}EST5", "AAA0BBB,J1/24,J300/24:00:00", "AAA256", "AAA0:256", "<EST\0>5", "<\0EST>5", "AAA0BBB,JM3.2.0,M11.1.0", "AAA0BBB,M3.2.0/600000,M11.1.0", "AAA0BBB,M3.2.0/268435456,M11.1.0", "AAA0BBB,M3.2.0/268435458,M11.1.0/-1", "AAA0000000003", "AAA3BBB,J0000000060,M0000000010.1.0", "AAA0BBB,M3.2.0/596523:59:59,M11.1.0", "AAA0BBB,M3.2.0/-2147483647,M11.1.0", "AAA0BBB-2,J3/-72,J364/120", "EST+5EDT,M3.2.0/2:00:00,M11.1.0/2:00:00x", "EST5EDT,M3.2,M11.1.0", "EST5EDT,M3.2.0,M11.1", "EST5EDT,M3,M11.1.0", "EST5EDT,M3.,M11.1.0", "EST5EDT,M3.2.,M11.1.0", "<-03>3<-02>,M3.5/1,M10.5.0", "EST5EDT,M3.2.0.1,M11.1.0", "EST5EDT,J60.1,J300", "AAA-0:30", "<+0030>-0:30", "WAT-0:44:30", "XXX-0:45YYY,M3.2.0,M11.1.0", "XXX0YYY,M3.2.0/-0:30,M11.1.0/-0:00:01", "XXX0YYY-0:00:01,M3.2.0,M11.1.0"];
     let rs = par_shards(1, |_, st| {
         for s in fixed {
             check_enum("str", &StrCase { s: s.as_bytes().to_vec() }, st, |c, st| check_str(c, st, true))?;
